@@ -134,8 +134,11 @@ func init() {
 
 /* ---------- control characters, every one, in every spelling ---------- */
 
-/* C0, DEL, C1; then characters that are not controls for unicode.IsControl but steer a terminal
-   or the reader all the same (they are printable for the model as they are for the code) */
+/*
+C0, DEL, C1; then characters that are not controls for unicode.IsControl but steer a terminal
+
+	or the reader all the same (they are printable for the model as they are for the code)
+*/
 func controlPoint(i int) rune {
 	others := []rune{0x200b, 0x200e, 0x202e, 0x2028, 0x2029, 0x2066, 0x2069, 0xfeff, 0x061c, 0xfff9, 0xe0001, 0xad, 0x180e}
 	i %= 65 + len(others)
@@ -240,8 +243,11 @@ func injectControls(r *rand.Rand, docText string, i int, widths []any) string {
 	return string(b)
 }
 
-/* a small post or profile with one control character (the k-th) written in every way, in text,
-   preformatted text, inline code, attributes that are shown, attachment names and links */
+/*
+a small post or profile with one control character (the k-th) written in every way, in text,
+
+	preformatted text, inline code, attributes that are shown, attachment names and links
+*/
 func controlDoc(r *rand.Rand, k int) Op {
 	c := controlPoint(k)
 	forms := spellings(c)
